@@ -8,9 +8,7 @@
 (* Mutant selects deliberately wrong variants; the laws in C05_MC must     *)
 (* fail for each of them.                                                  *)
 (***************************************************************************)
-EXTENDS FPValues, FPBigNum
-
-CONSTANT Mutant
+EXTENDS FPValues, FPBigNum, FPMutant
 
 (* A FHIR primitive element stands for its value; complex elements stay.   *)
 Val(x) == IF x.t = "el" /\ x.v.t \notin {"none", "unk", "enum"} THEN x.v ELSE x
